@@ -594,3 +594,92 @@ Proof.
   - apply map_eq. intros i. apply P.
   - intros i. apply P.
 Qed.
+
+(* ---------- BeforeChange calls ---------- *)
+Lemma bstep_bc_refines_pf : forall pfx nl st o,
+  bstep_bc pfx nl st o = spec_bc cfg_badger nl (abs pfx st) o.
+Proof.
+  intros pfx nl st o. unfold spec_bc. cbn [cfg_badger s_checks s_genid negb].
+  destruct o as [i v e|i v e|i e|i|i]; cbn [bstep_bc touch andb]; try reflexivity.
+  - destruct (e_wrongtype e); [reflexivity|]. rewrite andb_true_r.
+    destruct (is_nil i) eqn:Ei; [reflexivity|]. rewrite andb_false_r, Ei.
+    rewrite abs_lookup_pf. unfold view, bget. unfold bkey at 2. rewrite (kv_is_nil_app pfx i Ei).
+    reflexivity.
+  - destruct (e_wrongtype e); [reflexivity|]. rewrite abs_lookup_pf. reflexivity.
+  - rewrite abs_lookup_pf. reflexivity.
+Qed.
+
+Lemma spec_bc_mock_pf : forall newid nl m o, spec_bc (cfg_mock newid) nl m o = [].
+Proof. reflexivity. Qed.
+
+Lemma bstep_state_refines : forall pfx st o,
+  fst (fst (spec_step cfg_badger (abs pfx st) o)) = abs pfx (fst (fst (bstep pfx st o))).
+Proof.
+  intros pfx st o. rewrite bstep_refines. destruct (bstep pfx st o) as [[st' r] cbs]. reflexivity.
+Qed.
+
+Lemma run_bc_refines_badger_pf : forall pfx nl ops st,
+  run_bc (bstep pfx) (bstep_bc pfx nl) st ops =
+  run_bc (spec_step cfg_badger) (spec_bc cfg_badger nl) (abs pfx st) ops.
+Proof.
+  intros pfx nl. induction ops as [|o ops IH]; intros st; cbn [run_bc]; [reflexivity|].
+  rewrite bstep_bc_refines_pf, bstep_state_refines, IH. reflexivity.
+Qed.
+
+(* listeners 1..n in order, all with the same arguments, stopping at the first veto *)
+Lemma bc_go_shape : forall n idx k i b a,
+  bc_go n idx k i b a =
+  map (fun x => (x, i, b, a))
+      (seq idx (if (idx <=? k)%nat && (k <? idx + n)%nat then (k - idx + 1)%nat else n)).
+Proof.
+  induction n as [|n IH]; intros idx k i b a; cbn [bc_go].
+  - destruct (Nat.leb_spec idx k); destruct (Nat.ltb_spec k (idx + 0)); cbn [andb]; try reflexivity. lia.
+  - destruct (Nat.eqb_spec idx k) as [E|E].
+    + subst k. rewrite Nat.leb_refl. destruct (Nat.ltb_spec idx (idx + S n)); [|lia]. cbn [andb].
+      replace (idx - idx + 1)%nat with 1%nat by lia. reflexivity.
+    + rewrite IH.
+      destruct (Nat.leb_spec idx k); destruct (Nat.ltb_spec k (idx + S n)); cbn [andb];
+      destruct (Nat.leb_spec (S idx) k); destruct (Nat.ltb_spec k (S idx + n)); cbn [andb]; try lia.
+      * replace (k - idx + 1)%nat with (S (k - S idx + 1)) by lia. reflexivity.
+      * reflexivity.
+      * reflexivity.
+Qed.
+
+Lemma bc_calls_shape_pf : forall nl k i b a,
+  bc_calls nl k i b a =
+  map (fun x => (x, i, b, a)) (seq 1 (if Nat.eqb k 0 || (nl <? k)%nat then nl else k)).
+Proof.
+  intros nl k i b a. unfold bc_calls. rewrite bc_go_shape. f_equal. f_equal.
+  destruct (Nat.eqb_spec k 0); destruct (Nat.ltb_spec nl k); destruct (Nat.leb_spec 1 k);
+    destruct (Nat.ltb_spec k (1 + nl)); cbn [andb orb]; lia.
+Qed.
+
+(* BeforeChange listeners are called exactly for the operations that reach the listener
+   stage, i.e. those that end in success or in a veto; the outcome is a veto exactly
+   when some listener vetoes *)
+Lemma spec_bc_stage_pf : forall c nl m o m' r cbs,
+  s_checks c = true -> spec_step c m o = (m', r, cbs) ->
+  (is_mutation o = true /\
+   r = (if Nat.eqb (vetoat_of o) 0 then ROk else EVeto) /\
+   spec_bc c nl m o = bc_calls nl (vetoat_of o) (touch c o) (m !! touch c o) (after_of o)) \/
+  (r <> ROk /\ r <> EVeto /\ spec_bc c nl m o = []).
+Proof.
+  intros c nl m o m' r cbs Hc H. unfold spec_bc. rewrite Hc. cbn [negb].
+  destruct o as [i v e|i v e|i e|i|i]; cbn [spec_step] in H; rewrite ?Hc in H; cbn [andb] in H;
+    cbn [vetoat_of after_of is_mutation].
+  - destruct (e_wrongtype e); [inversion H; right; repeat split; congruence|].
+    destruct (is_nil i && negb (s_genid c)); [inversion H; right; repeat split; congruence|].
+    destruct (is_nil (touch c (OCreate i v e))); [inversion H; right; repeat split; congruence|].
+    destruct (m !! touch c (OCreate i v e)) eqn:El; [inversion H; right; repeat split; congruence|].
+    left. unfold e_veto in H. split; [reflexivity|].
+    destruct (Nat.eqb (e_vetoat e) 0); cbn [negb] in H; inversion H; split; reflexivity.
+  - destruct (e_wrongtype e); [inversion H; right; repeat split; congruence|]. cbn [touch].
+    destruct (m !! i) eqn:El; [|inversion H; right; repeat split; congruence].
+    left. unfold e_veto in H. split; [reflexivity|].
+    destruct (Nat.eqb (e_vetoat e) 0); cbn [negb] in H; inversion H; split; reflexivity.
+  - cbn [touch]. destruct (m !! i) eqn:El; [|inversion H; right; repeat split; congruence].
+    left. unfold e_veto in H. split; [reflexivity|].
+    destruct (Nat.eqb (e_vetoat e) 0); cbn [negb] in H; inversion H; split; reflexivity.
+  - right. destruct (m !! i); inversion H; repeat split; congruence.
+  - right. inversion H; repeat split; congruence.
+Qed.
